@@ -12,6 +12,7 @@ def spec():
         Row('T3', 'E1', 'T0'),
         Row('T0', 'E1', 'T2', actions=['e02']),
         Row('T1', 'E2', 'T0'),
+        Row('T0', 'E2', 'T0', actions=['t0self']),      # external self-transition on a completion source: re-entry, ids unchanged
     ])
     root = Machine('Root', ['C0'], {
         'C0': St(), 'C1': St(), 'C2': St(), 'W': St(), 'Sub': Sub(sub),
@@ -26,5 +27,7 @@ def spec():
         Row('Sub', 'E0', 'W'),
         Row('Sub', 'E3', 'C1', guard=0),
         Row('W', 'E3', None, actions=['w3']),
+        Row('C1', 'E2', 'C1', actions=['c1self']),
+        Row('C2', 'E2', 'C2', guard=1),
     ])
     return {'name': 'M06', 'events': ['E0', 'E1', 'E2', 'E3'], 'flags': [], 'root': root}
